@@ -664,6 +664,35 @@ class RaceHarness(Harness):
                     self.oracle_c01(cfg, expected_schedule, out, rc_events, info, cct, bad, strict_counts=(prop in ("C01", "C11")), worker_clients=worker_clients)
                     if prop == "C07":
                         self.oracle_c07(cfg, expected_schedule, out, rc_docs, info, bad)
+                        if cfg["knobs"].get("downsample", 1) > 1 and not out.hang and out.exception is None and not violations:
+                            # metamorphic: down-sampling must not change throughput (it is computed from all samples).  The very same
+                            # race (same choices, replayed) without down-sampling must store the same throughput records.
+                            from sim.chooser import Chooser
+
+                            twin_cfg = json.loads(json.dumps(run_cfg))
+                            twin_cfg["knobs"].pop("downsample")
+                            twin_docs = []
+
+                            def observe_twin(system, cell, msg, sender):
+                                if cell.cls.__name__ == "BenchmarkActor" and type(msg).__name__ in ("TaskFinished", "BenchmarkComplete") and msg.metrics:
+                                    twin_docs.extend(pickle.loads(zlib.decompress(msg.metrics)))
+
+                            recorded = ch.dump()
+                            recorded.pop("gen", None)
+                            twin = RaceSim(Chooser(seed=0, replay=recorded), twin_cfg, self.process_home())
+                            try:
+                                twin_out = twin.run(policy_factory, observe=observe_twin)
+                            finally:
+                                twin.cleanup()
+                            key = lambda d: (d.get("task"), d["sample-type"], round(d["value"], 9), d["unit"], d["@timestamp"])  # noqa
+                            a = sorted(key(d) for d in rc_docs if d["name"] == "throughput")
+                            b = sorted(key(d) for d in twin_docs if d["name"] == "throughput")
+                            if race_digest(twin_out) != race_digest(out):
+                                reach["downsampling_twin_history_differs"] = 1  # would be a harness matter; nothing to compare
+                            elif a != b:
+                                diff = [x for x in a if x not in b][:2], [x for x in b if x not in a][:2]
+                                bad("records", "throughput-changed-by-downsampling", f"with downsample factor {cfg['knobs']['downsample']} the throughput records differ from the same race without down-sampling: only with {diff[0]}, only without {diff[1]}")
+                            reach["downsampling_twin_compared"] = 1
                     if prop == "C11":
                         self.oracle_c11_progress(expected_schedule, out, bad)
                         if info["stray"] is not None:
